@@ -432,6 +432,8 @@ def plan_body(ctx, case):
                         clocks[f"{base}__{'io' if 'n' not in leaf['pins'] else 'p'}"] = Period(Hz=leaf["clock_hz"]).hertz
                     if buffered:
                         d = {"i": "i", "o": "o", "oe": "o", "io": "io"}[leaf["pins"]["dir"]]
+                        if d == "io" and "n" in leaf["pins"]:
+                            d = "o"    # some vendors (iCE40) refuse bidirectional differential buffers: not this property's subject
                         buf = io.Buffer(d, obj)
                         m.submodules += buf
                         if d != "i":
